@@ -29,9 +29,15 @@ COVER = {
 }
 
 
+_F = {"facts": None}
+
+
 def sig_tags(term):
     """All (getter, tag, decoded?, receiver) rows the signature argument can come from: one, or - for a loop over
     `[a, b].into_iter().flatten()` - one per element of the array."""
+    if _F["facts"] is not None:
+        import idioms
+        term = idioms.array_map_elem(_F["facts"], term)
     t = term
     dec = False
     for _ in range(12):
@@ -58,6 +64,9 @@ def sig_tags(term):
 def sig_tag(term):
     """(getter, tag, decoded?) of the signature argument's provenance term."""
     decoded = False
+    if _F["facts"] is not None:
+        import idioms
+        term = idioms.array_map_elem(_F["facts"], term)
     t = term
     for _ in range(10):
         if t[0] == "proj":
@@ -95,6 +104,7 @@ def data_term(t):
 
 
 def run(f, fixture, rep, cfg, tier):
+    _F["facts"] = f
     rep.explanation = (
         "Path-sensitive reachability over Package::verify_signature's MIR with a finite predicate abstraction "
         "(discriminants / is_ok / is_empty facts on immutable values, first-iteration lemma for non-empty slices): "
